@@ -18,7 +18,7 @@ class C13(Prop):
     id = "C13"
     level = "exploration"
     technique = "real pretty_next_run driven under a virtual clock and switched host zone; independent earliest-occurrence oracle over all 128 day sets"
-    rule = ("case = (zone, virtual now); under it all 128 day sets x a start-minute grid {now-1, now, now+1, 00:00, 23:59, now-60, "
+    rule = ("case = (zone, virtual now: 7 consecutive days incl. both sides of local midnight, plus year ends, month ends and leap days); under it all 128 day sets x a start-minute grid {now-1, now, now+1, 00:00, 23:59, now-60, "
             "now+60, random...} are evaluated and the text's token class (today / tomorrow / next <Weekday>) compared with the "
             "earliest future occurrence; distinct = (local weekday, local minute-of-day bucket, zone, whether local weekday differs "
             "from UTC weekday); non-trivial = cases where local weekday != UTC weekday or now is within 2 h of local midnight")
@@ -38,22 +38,28 @@ class C13(Prop):
 
     def cases(self, tier, seed, shard, nshards):
         per = {"quick": 8, "thorough": 300}[tier]
+        extra = {"quick": 2, "thorough": 6}[tier]
         i = 0
         for zone in ZONES:
             r = env.rng("C13", seed, zone)
             base = r.randrange(1_690_000_000, 1_800_000_000)
+            instants = []
             for day in range(7):
-                mids = []
                 # instants near local midnight on both sides (local weekday != UTC weekday is common there)
                 t0 = base + day * 86400
                 loc = clock.local(zone, t0)
                 midnight = t0 - (loc.hour * 3600 + loc.minute * 60 + loc.second)
-                mids += [midnight + r.randrange(0, 7200), midnight - r.randrange(1, 7200), midnight + 60, midnight - 60]
-                mids += [t0 + r.randrange(86400) - 43200 for _ in range(per)]
-                for now in mids:
-                    if i % nshards == shard:
-                        yield {"zone": zone, "now": now, "extra": {"quick": 2, "thorough": 6}[tier]}
-                    i += 1
+                instants += [midnight + r.randrange(0, 7200), midnight - r.randrange(1, 7200), midnight + 60, midnight - 60]
+                instants += [t0 + r.randrange(86400) - 43200 for _ in range(per)]
+            # calendar edges: year ends, month ends, leap day (tomorrow is in another month / year)
+            for (y, mo, d) in ((2025, 12, 31), (2026, 12, 31), (2027, 12, 31), (2028, 12, 31), (2026, 1, 1), (2024, 2, 28), (2024, 2, 29),
+                               (2025, 2, 28), (2026, 3, 31), (2026, 4, 30), (2026, 11, 30)):
+                noon = int(datetime(y, mo, d, 12, 0, tzinfo=timezone.utc).timestamp())
+                instants += [noon - 9 * 3600, noon, noon + 9 * 3600]
+            for now in instants:
+                if i % nshards == shard:
+                    yield {"zone": zone, "now": now, "extra": extra}
+                i += 1
 
     def run_case(self, case, acc, ctx):
         zone, now = case["zone"], case["now"]
